@@ -1,7 +1,7 @@
 SPECIFICATION GenSpec
 CONSTANTS SmallIds = {1, 2} Widths = {1, 2} MaxTok = 4 MaxSlots = 10
   Texts <- CTextsT HRs <- CHRs
-CONSTRAINT Bound
+CONSTRAINT BoundT
 VIEW Skel
 ACTION_CONSTRAINT Emit
 CHECK_DEADLOCK FALSE
